@@ -415,3 +415,10 @@ impl<T> IntoOpt<T> for Option<T> {
 /// R11: `format!(..)` in error paths: value irrelevant
 #[verifier::external_body]
 pub fn opaque_string() -> String { unimplemented!() }
+
+/// A6 extension: std functions used by the extracted code that vstd does not specify yet
+pub assume_specification<T>[Option::<T>::or](a: Option<T>, b: Option<T>) -> (r: Option<T>)
+    where T: core::marker::Destruct,
+    ensures r == (if a is Some { a } else { b });
+pub assume_specification<T>[<Option<T> as core::convert::From<T>>::from](t: T) -> (r: Option<T>)
+    ensures r == Some(t);
